@@ -139,7 +139,8 @@ def c_rows(rows):
     return clist(c_row(r) for r in rows)
 
 
-def c_agg(a):
+def c_agg(a, arg=None):
+    a = dict(a, arg=a["arg"] if arg is None else arg)
     kind = a["kind"]
     k = {"count": "ACount", "sum": "ASum", "avg": "AAvg", "min": "AMin", "max": "AMax", "sample": "ASample"}.get(kind)
     if kind == "concat":
@@ -147,10 +148,76 @@ def c_agg(a):
     return "{| a_kind := %s; a_distinct := %s; a_arg := %s |}" % (k, cbool(a["distinct"]), copt(a["arg"], cN))
 
 
+# ---- aggregate ARGUMENTS that are simple expressions over one variable (conformance level: the value of
+# the expression in every input solution is computed HERE with exact arithmetic and enters the Coq case as
+# the binding of a derived variable; the aggregate over the derived variable is what the model/spec judge)
+EXPR_TEXT = {"neg": "-?v%d", "pos": "+?v%d", "add": "?v%d + %d", "sub": "?v%d - %d", "floor": "FLOOR(?v%d)",
+             "ceil": "CEIL(?v%d)", "abs": "ABS(?v%d)", "strlen": "STRLEN(?v%d)", "lcase": "LCASE(?v%d)",
+             "ucase": "UCASE(?v%d)"}
+EXPR_FAMILIES = [["neg", "pos"], ["floor", "ceil", "abs"], ["add", "sub"], ["strlen", "lcase", "ucase"]]
+
+
+def expr_text(e, v):
+    t = EXPR_TEXT[e["op"]]
+    return t % ((v, e["k"]) if e["op"] in ("add", "sub") else (v,))
+
+
+def expr_eval(e, t):
+    """exact value of the expression on an encoded term; None = error"""
+    op = e["op"]
+    if op in ("strlen", "lcase", "ucase"):
+        if t[0] != "S" or t[1].startswith("\x00"):
+            return None
+        return ["Z", len(t[1])] if op == "strlen" else ["S", t[1].lower() if op == "lcase" else t[1].upper()]
+    if t[0] == "Z":
+        n = t[1]
+        return ["Z", {"neg": -n, "pos": n, "add": n + e.get("k", 0), "sub": n - e.get("k", 0), "floor": n, "ceil": n,
+                      "abs": abs(n)}[op]]
+    if t[0] == "D":
+        m, k = t[1], t[2]
+        sc = 10 ** k
+        if op == "neg":
+            return ["D", -m, k]
+        if op == "pos":
+            return ["D", m, k]
+        if op == "abs":
+            return ["D", abs(m), k]
+        if op == "add":
+            return ["D", m + e["k"] * sc, k]
+        if op == "sub":
+            return ["D", m - e["k"] * sc, k]
+        if op == "floor":
+            return ["D", m // sc, 0]
+        if op == "ceil":
+            return ["D", -((-m) // sc), 0]
+    return None
+
+
+def derived_vars(case):
+    """[(derived variable id, expr, source variable)] in order of first use"""
+    out = []
+    for _, a in case["aggs"]:
+        e = a.get("expr")
+        if e is not None:
+            key = (json.dumps(e, sort_keys=True), a["arg"])
+            if key not in [(json.dumps(x, sort_keys=True), v) for _, x, v in out]:
+                out.append((30 + len(out), e, a["arg"]))
+    return out
+
+
+def derived_id(case, a):
+    for i, e, v in derived_vars(case):
+        if e == a["expr"] and v == a["arg"]:
+            return i
+    raise KeyError(a)
+
+
 def agg_text(a):
     fn = {"count": "COUNT", "sum": "SUM", "avg": "AVG", "min": "MIN", "max": "MAX", "sample": "SAMPLE",
           "concat": "GROUP_CONCAT"}[a["kind"]]
     arg = "*" if a["arg"] is None else f"?v{a['arg']}"
+    if a.get("expr") is not None:
+        arg = expr_text(a["expr"], a["arg"])
     d = "DISTINCT " if a["distinct"] else ""
     sep = ""
     if a["kind"] == "concat" and a.get("sep") is not None:
@@ -177,6 +244,95 @@ class C08(Suite):
     #         "slice": None|[off, limit|None]}
     # ------------------------------------------------------------ generation
     def gen(self, rng, i):
+        r = rng.random()
+        if r < 0.10:
+            return self.gen_expr(rng)
+        if r < 0.18:
+            return self.gen_ties(rng)
+        return self.gen_general(rng)
+
+    def gen_graph(self, rng, objs, nmax=10, preds=(0.6,)):
+        subs = rng.sample(SUBJ, rng.choice([2, 3, 4]))
+        triples = []
+        for _ in range(rng.choice([3, 4, 5, 6, 8, nmax])):
+            t = [enc_term(rng.choice(subs)), enc_term(PRED[0] if rng.random() < preds[0] else PRED[1]),
+                 enc_term(rng.choice(objs))]
+            if t not in triples:
+                triples.append(t)
+        return triples
+
+    def gen_expr(self, rng):
+        """two aggregates of the SAME function over DIFFERENT expressions of ?v2 (often differing only in the
+        function applied), optionally a third one used only as ORDER BY key"""
+        strings = rng.random() < 0.3
+        if strings:
+            objs = [Literal(x) for x in rng.sample(["Ann", "bob", "", "a B", "x", "Cy", "ANN"], 4)]
+            fam = EXPR_FAMILIES[3]
+            kinds = ["min", "max", "sample", "concat", "count"]
+        else:
+            objs = rng.sample(OBJ_NUM + [Literal(Decimal("-0.75")), Literal(Decimal("2.25")), Literal(-2)], 5)
+            fam = rng.choice(EXPR_FAMILIES[:3])
+            kinds = ["sum", "sum", "avg", "min", "max", "count", "sample", "concat"]
+        case = {"graph": self.gen_graph(rng, objs, 8, (1.0,)), "pattern": 0, "group": rng.choice([[], [0], [0]]),
+                "aggs": [], "having": None, "order": [], "proj": None, "distinct": False, "slice": None, "galias": None}
+
+        def mk(op):
+            return None if op is None else ({"op": op, "k": rng.choice([1, 2, 3])} if op in ("add", "sub") else {"op": op})
+
+        ops = rng.sample(fam + [None], 2) if rng.random() < 0.3 else rng.sample(fam, 2)
+        kind = rng.choice(kinds)
+        if strings and "strlen" in ops and rng.random() < 0.5:
+            kind = rng.choice(kinds + ["sum", "avg"]) if set(ops) == {"strlen"} else kind
+        d = rng.random() < 0.25
+        sep = rng.choice(SEPS)
+        aggs = []
+        for j, op in enumerate(ops):
+            a = {"kind": kind, "distinct": d, "arg": 2}
+            if kind == "concat":
+                a["sep"] = sep
+            if mk(op) is not None:
+                a["expr"] = mk(op)
+            aggs.append([10 + j, a])
+        proj = list(case["group"]) + [10, 11]
+        if rng.random() < 0.5:
+            # an aggregate that only occurs in ORDER BY, same function as a selected one
+            op3 = rng.choice([o for o in fam if o not in ops] or fam)
+            k3 = kind if rng.random() < 0.7 else rng.choice(kinds)
+            a3 = {"kind": k3, "distinct": d, "arg": 2, "expr": mk(op3)}
+            if k3 == "concat":
+                a3["sep"] = sep
+            aggs.append([12, a3])
+            case["order"] = [[rng.random() < 0.5, 12]] + ([[False, 0]] if case["group"] else [])
+        elif rng.random() < 0.5:
+            case["order"] = [[rng.random() < 0.5, rng.choice([10, 11])]]
+        case["aggs"] = aggs
+        case["proj"] = proj
+        return case
+
+    def gen_ties(self, rng):
+        """SELECT DISTINCT + ORDER BY over all projected variables on value-equal literals of different
+        lexical form / datatype (1, 1.0, 1.00, 2, 2.0): ties in the sort order, duplicates not adjacent"""
+        pool = [Literal(1), Literal(Decimal("1.0")), Literal(Decimal("1.00")), Literal(2), Literal(Decimal("2.0")),
+                Literal(1), Literal(Decimal("1.0")), Literal("x")]
+        objs = rng.sample(pool, rng.choice([3, 4, 5]))
+        pat = rng.choice([0, 0, 2, 1, 3])
+        case = {"graph": self.gen_graph(rng, objs, 12), "pattern": pat, "group": None, "aggs": [], "having": None,
+                "order": [], "proj": None, "distinct": True, "slice": None, "galias": None}
+        pv = [v for v in PVARS[pat] if v != 0]
+        proj = [2] if rng.random() < 0.6 else rng.sample(pv, min(len(pv), 2))
+        case["proj"] = proj
+        keys = list(proj)
+        rng.shuffle(keys)
+        case["order"] = [[rng.random() < 0.4, v] for v in keys]
+        if rng.random() < 0.2:
+            case["order"].append([False, rng.choice(PVARS[pat])])
+        if rng.random() < 0.45:
+            case["slice"] = [rng.choice([0, 1, 2, 3]), rng.choice([None, 1, 2, 3])]
+            if case["slice"] == [0, None]:
+                case["slice"] = [1, None]
+        return case
+
+    def gen_general(self, rng):
         prof = rng.random()
         pool = OBJ_INT if prof < 0.3 else OBJ_NUM if prof < 0.6 else OBJ_MIX
         # few distinct objects per graph: equal values meet inside one group
@@ -298,7 +454,11 @@ class C08(Suite):
         if case["group"] is not None:
             full += self.tail(case)
         if case["order"]:
-            full += " ORDER BY " + " ".join(("DESC" if d else "ASC") + f"(?v{v})" for d, v in case["order"])
+            al = {a[0]: a[1] for a in case["aggs"]}
+            shown = pv
+            full += " ORDER BY " + " ".join(
+                ("DESC" if d else "ASC") + (f"({agg_text(al[v])})" if v in al and v not in shown else f"(?v{v})")
+                for d, v in case["order"])
         final = full
         if case["slice"] is not None:
             off, lim = case["slice"]
@@ -330,14 +490,34 @@ class C08(Suite):
             out.append([[v, d[v]] for v in list(order) + extra if v in d])
         return out
 
+    def memo_key(self, case):
+        return json.dumps([case["graph"], case["pattern"], case.get("galias"),
+                           [[i, e, v] for i, e, v in derived_vars(case)]], sort_keys=True)
+
+    def extend(self, case, rows):
+        """bind the derived variables (values of the aggregates' argument expressions)"""
+        dv = derived_vars(case)
+        if not dv:
+            return rows
+        out = []
+        for r in rows:
+            d = dict((v, t) for v, t in r)
+            r2 = list(r)
+            for i, e, v in dv:
+                val = expr_eval(e, d[v]) if v in d else None
+                if val is not None:
+                    r2.append([i, val])
+            out.append(r2)
+        return out
+
     def input_of(self, case):
-        key = json.dumps([case["graph"], case["pattern"], case.get("galias")], sort_keys=True)
+        key = self.memo_key(case)
         if key not in self._memo:
             if len(self._memo) > 5000:
                 self._memo.clear()
             g = self.graph_of(case)
             base = self.queries(case)[0]
-            self._memo[key] = self.rows_of(g.query(base), self.pattern_vars(case))
+            self._memo[key] = self.extend(case, self.rows_of(g.query(base), self.pattern_vars(case)))
         return self._memo[key]
 
     def run_impl(self, case):
@@ -345,9 +525,8 @@ class C08(Suite):
         base, core, full, final = self.queries(case)
         order = self.canon_order(case)
         try:
-            inp = self.rows_of(g.query(base), self.pattern_vars(case))
-            key = json.dumps([case["graph"], case["pattern"], case.get("galias")], sort_keys=True)
-            self._memo[key] = inp
+            inp = self.extend(case, self.rows_of(g.query(base), self.pattern_vars(case)))
+            self._memo[self.memo_key(case)] = inp
             a = inp if core is None else self.rows_of(g.query(core), order)
             f = self.rows_of(g.query(full), order)
             s = f if final == full else self.rows_of(g.query(final), order)
@@ -362,7 +541,8 @@ class C08(Suite):
     def coq_case(self, case):
         inp = self.input_of(case)
         grp = copt(case["group"], lambda g: clist(cN(v) for v in g))
-        aggs = clist(ctuple(cN(v), c_agg(a)) for v, a in case["aggs"])
+        aggs = clist(ctuple(cN(v), c_agg(a, derived_id(case, a) if a.get("expr") is not None else None))
+                     for v, a in case["aggs"])
         hv = copt(case["having"], lambda h: (f"(HKey {cN(h['key'])} {cbool(h['ne'])} {cstr(h['iri'])})" if "key" in h
                                              else f"(HAgg {c_agg(h['agg'])} {OPS[h['op']]} {cZ(h['n'])})"))
         order = clist(ctuple(cbool(d), cN(v)) for d, v in case["order"])
@@ -390,6 +570,11 @@ class C08(Suite):
              "having_key_unprojected": int(bool(case["having"]) and "key" in case["having"]
                                            and case["having"]["key"] not in (case["proj"] or [])),
              "group_by_alias": int(bool(case.get("galias"))),
+             "agg_arg_expression": int(any(a.get("expr") for _, a in case["aggs"])),
+             "agg_only_in_order_by": int(any(v in [a[0] for a in case["aggs"]] and v not in (case["proj"] or [])
+                                             for _, v in case["order"])),
+             "distinct_sorted_on_all_columns": int(bool(case["distinct"] and case["proj"] and case["order"]
+                                                        and set(case["proj"]) <= {v for _, v in case["order"]})),
              "order_keys": len(case["order"]), "order_desc": sum(1 for d, _ in case["order"] if d),
              "distinct": int(case["distinct"]), "slice": int(case["slice"] is not None),
              "project": int(case["proj"] is not None and case["group"] is None),
